@@ -21,6 +21,9 @@ PLAN = {
     # ordered pairs of the value domain x {WAL-only, flushed, compacted}) is done
     # by the harness, MC_Store_single3 only supplies the short histories
     "C12": ("MC_Store_single3", "MC_Store_single3", 400, 5000, "c12", ("C12",)),
+    # C19 (sequential part): random histories with incremental maintenance switched on early;
+    # after every step a consistent read of each relation from the incremental engine is recorded
+    "C19": (None, None, 600, 8000, "c19", ("C19",)),
 }
 
 
@@ -108,10 +111,11 @@ def run(prop, replay=None):
         vlib.ilv(["drive-store", "--hist", hist, "--focus", focus, "--out", trace, "--root", root])
     else:
         hist = os.path.join(wd, "hist.ndjson")
-        nhist, _ = emit_histories(mct if t == "thorough" else mcq, hist, rep)
-        exhaustive = True
-        args = ["drive-store", "--hist", hist, "--focus", focus, "--out", trace, "--root", root,
-                "--seed", vlib.seed(), "--threads", 14]
+        args = ["drive-store", "--focus", focus, "--out", trace, "--root", root, "--seed", vlib.seed(), "--threads", 14]
+        if mcq:
+            nhist, _ = emit_histories(mct if t == "thorough" else mcq, hist, rep)
+            exhaustive = True
+            args += ["--hist", hist]
         nr = rt if t == "thorough" else rq
         if nr:
             args += ["--random", nr]
